@@ -160,6 +160,7 @@ pub fn run_job(
         job.bound,
         job.step_cap,
         part,
+        job.id.bytes().fold(0u64, |h, b| h.wrapping_mul(31).wrapping_add(b as u64)),
         deadline,
         only,
         wrapped,
